@@ -297,6 +297,86 @@ def job_history_rotate(ctx: Ctx):
     clear_caches(an)
 
 
+def _band_limited_case(method, degs, with_zero, rotate, seed=0):
+    import warnings
+    warnings.simplefilter("ignore")
+    from grid.atomgrid import AtomGrid
+    from grid.onedgrid import GaussLegendre
+    from grid.basegrid import OneDGrid
+    from grid.rtransform import BeckeRTransform
+    import grid.utils as ut
+    rng = np.random.default_rng(seed)
+    rg = BeckeRTransform(0.0 if False else 1e-3, 1.3).transform_1d_grid(GaussLegendre(len(degs)))
+    pts, w = rg.points.copy(), rg.weights.copy()
+    if with_zero:
+        pts[0]=0.0
+    rg = OneDGrid(pts, w, (0,np.inf))
+    c = np.array([0.3,-0.2,0.5])
+    ag = AtomGrid(rg, degrees=degs, center=c, rotate=rotate, method=method)
+    L = min(ag.degrees)//2
+    nlm=(L+1)**2
+    co = rng.normal(size=(nlm,3))
+    g = lambda r: (co[:,0,None]+co[:,1,None]*r+co[:,2,None]*r*r)*np.exp(-r)[None,:]*np.where(np.arange(nlm)[:,None]>0, r[None,:], 1.0)  # g_lm(0)=0 for l>0
+    def f(p):
+        sph = ut.convert_cart_to_sph(p, c)
+        Y = ut.generate_real_spherical_harmonics(L, sph[:,1], sph[:,2])
+        return np.sum(g(sph[:,0])*Y,axis=0)
+    fv = f(ag.points)
+    out={}
+    rad = ag.integrate_angular_coordinates(fv)
+    r = rg.points
+    out["angular"] = np.max(np.abs(rad - np.sqrt(4*np.pi)*g(r)[0]))
+    out["total"] = abs(np.sum(rad*r*r*rg.weights) - ag.integrate(fv))
+    spl = ag.radial_component_splines(fv)
+    G = g(r)
+    out["splines"] = max(np.max(np.abs(spl[k](r) - G[k])) for k in range(nlm))
+    out["extra splines zero"] = max([np.max(np.abs(s(r))) for s in spl[nlm:]] + [0.0]) if min(ag.degrees)==max(ag.degrees) else 0.0
+    itp = ag.interpolate(fv)
+    out["values"] = np.max(np.abs(itp(ag.points) - fv))
+    q = c + rng.normal(size=(5,3))*0.4
+    out["offgrid vs splines*Y"] = 0.0
+    sph = ut.convert_cart_to_sph(q, c); Y = ut.generate_real_spherical_harmonics(ag.l_max//2, sph[:,1], sph[:,2])
+    out["offgrid vs splines*Y"] = np.max(np.abs(itp(q) - sum(spl[k](sph[:,0])*Y[k] for k in range(len(spl)))))
+    # centre and z axis
+    qq = np.array([c, c+[0,0,0.4], c-[0,0,0.7]])
+    sph = ut.convert_cart_to_sph(qq, c); Y = ut.generate_real_spherical_harmonics(ag.l_max//2, sph[:,1], sph[:,2])
+    out["centre/z-axis"] = np.max(np.abs(itp(qq) - sum(spl[k](sph[:,0])*Y[k] for k in range(len(spl)))))
+    sa = ag.spherical_average(fv)
+    out["sph-average"] = abs(np.sum(sa(r)*4*np.pi*r*r*rg.weights) - ag.integrate(fv))
+    return out
+
+
+BAND_CASES = (("lebedev", [5, 7, 9, 7, 5, 5], False, 0), ("lebedev", [7] * 6, True, 3), ("maxdet", [6, 6, 8, 10, 8, 6], False, 5), ("spherical", [5, 7, 7, 9, 5, 5], True, 0), ("ahrens_beylkin", [14, 14, 14, 14], False, 2))
+
+
+def band_limited_oracle():
+    tol = {"sph-average": 1e-6}
+    bad = {}
+    for cfg in BAND_CASES:
+        try:
+            out = _band_limited_case(*cfg, seed=harness.seed())
+        except Exception as ex:
+            bad[str(cfg)] = f"{type(ex).__name__}: {str(ex)[:150]}"
+            continue
+        for k, v in out.items():
+            if not v <= tol.get(k, 1e-9):
+                bad[f"{cfg}: {k}"] = float(v)
+    return bad
+
+
+def job_band_limited(ctx: Ctx):
+    """float code with the shipped angular grids and SciPy splines (the solver jobs stub both): a random function with l <= min_i d_i / 2 on uniform and mixed
+    (odd and even) per-shell degrees, four methods, rotation seeds, a node at r = 0 -> exact angular integrals, total, splines through g_lm(r_i), values at the
+    grid points, off-grid / centre / z-axis values == splines x harmonics, spherical average.  Ground enumeration."""
+    an, ag, bg, ut, mg = _mods()
+    ctx.encoded(ag.AtomGrid.integrate_angular_coordinates, ag.AtomGrid.radial_component_splines, ag.AtomGrid.interpolate, ag.AtomGrid.spherical_average)
+    with unpatched(an, ag, bg, ut, mg):
+        bad = band_limited_oracle()
+    (ctx.ok if not bad else ctx.fail)("float code: band-limited functions are recovered exactly (5 grids: 4 methods, odd/even/mixed degrees, rotation, r = 0 node)", detail=str(bad)[:300], key="band-limited:real",
+                                      how="ground enumeration (not a solver obligation)", replay=(lambda m: (True, bad)), **({} if not bad else dict(model={})))
+    ctx.twins_sat += 1
+
+
 def molgrid_real_oracle():
     """float code, real AtomGrids: MolGrid.interpolate(f) == sum over atoms of the interpolant of (w_A f) built on an independently constructed
     copy of that atom's grid; atoms with identical degrees but different rotation seeds, mixed degrees, store on/off, values and derivatives."""
@@ -390,7 +470,7 @@ def job_molgrid(ctx: Ctx):
 def jobs(tier):
     js = [Job("decompose/lebedev/3,3/symbolic-r", job_decompose, "lebedev", [3, 3], False, False), Job("decompose/lebedev/3,3/r0=0", job_decompose, "lebedev", [3, 3], True, False),
           Job("decompose/maxdet/2,4/mixed", job_decompose, "maxdet", [2, 4], False, True), Job("decompose/lebedev/3,5/mixed", job_decompose, "lebedev", [3, 5], False, True),
-          Job("history/rotate", job_history_rotate), Job("molgrid", job_molgrid), Job("molgrid/real", job_molgrid_real)]
+          Job("history/rotate", job_history_rotate), Job("molgrid", job_molgrid), Job("molgrid/real", job_molgrid_real), Job("ground/band-limited", job_band_limited)]
     js += [Job(f"interpolate/{m}", job_interpolate, m) for m in ("value", "radial2", "spherical", "cartesian")]
     if tier == "thorough":
         js += [Job("decompose/maxdet/4,2,4/r0=0", job_decompose, "maxdet", [4, 2, 4], True, True), Job("decompose/spherical/3,5", job_decompose, "spherical", [3, 5], False, True)]
@@ -405,7 +485,7 @@ def main():
         PROP, res, t0, "DESIGN.md#c09",
         bounds=dict(grids="2-3 shells, Lebedev 3/5, max-det 2/4, spherical 3/5; uniform and mixed per-shell degrees; a node at r = 0", values="symbolic function value at every grid point (read-only array)",
                     evaluation="one symbolic evaluation point away from the centre and the z-axis", l="l_max//2 <= 2"),
-        outside=["exact recovery of band-limited functions and splines passing through g_lm(r_i): needs the exactness of the shipped angular grids (C02) and SciPy's spline solver",
+        outside=["exact recovery of band-limited functions with the shipped angular grids and SciPy splines is not a solver question: sampled by the ground jobs ground/band-limited and molgrid/real on the float code",
                  "evaluation exactly at the centre / on the z-axis (covered for the conversion itself in C08)", "the angular-derivative routine (stubbed, see C08)"],
         assumptions=["CubicSpline stub: records (x, y); S_j^(nu)(r) uninterpreted with S_j(x_i) = y_i", "generate_derivative_real_spherical_harmonics as imported by atomgrid.py: uninterpreted arrays",
                      "MolGrid.interpolate job: atomic grids replaced by recording stubs"])
